@@ -72,6 +72,9 @@ type qScenario struct {
 	RecoverTempFails int `json:"recover_temp_fails,omitempty"`
 	// limit of attempts running at the same time (0: 16)
 	Parallelism int `json:"max_parallelism,omitempty"`
+	// the target behaves like a message pipeline with recipient modifiers: it records its own rewrites in the
+	// OriginalRcpts map of the meta-data it was handed (its copy, according to MsgMetadata.DeepCopy)
+	TargetRewrites bool `json:"target_rewrites,omitempty"`
 }
 
 // ---- history ---------------------------------------------------------------------------------
@@ -210,6 +213,9 @@ func (t *qTarget) Start(ctx context.Context, meta *module.MsgMetadata, from stri
 	}
 	t.h.Attempts = append(t.h.Attempts, a)
 	t.h.mu.Unlock()
+	if t.sc.TargetRewrites && meta.OriginalRcpts != nil {
+		meta.OriginalRcpts[fmt.Sprintf("rewritten-in-attempt-%d@target.example", n)] = "set-by-the-target@target.example"
+	}
 	p := t.plan(base, n)
 	err := qErr(p.Start)
 	t.h.ev(qEvent{Msg: base, Attempt: n, Op: "start", Err: errStr(err)})
